@@ -66,18 +66,17 @@ size_t get_pu_num(struct affinity_data *self, size_t num_thread)
 #ifdef U_NONE_BRANCH
 //@FUNC
 #endif
-void init_none_branch(struct affinity_data *self, bool vx_description_is_none, size_t num_system_pus)
+/* the block guarded by `if (affinity_description == "none")` in affinity_data::init */
+void init_none_branch(struct affinity_data *self, size_t num_system_pus)
 /* init_cached_pu_nums has filled pu_nums_; every cached PU number is below the hardware concurrency (get_pu_num(i, hc)
  * ends in `% hardware_concurrency`) */
 __CPROVER_requires(self->pu_nums_size == self->num_threads_ && g_k_punum < g_pu_bound && g_pu_bound == num_system_pus)
 /* after the `none` branch the bit of worker k's PU number is set in no_affinity_ */
-__CPROVER_ensures((vx_description_is_none && g_k < self->num_threads_ && g_k_punum == g_b) ==> (g_b < self->no_affinity_.size && self->no_affinity_.v_bit))
-__CPROVER_ensures(vx_description_is_none ==> self->no_affinity_.size == num_system_pus)
+__CPROVER_ensures((g_k < self->num_threads_ && g_k_punum == g_b) ==> (g_b < self->no_affinity_.size && self->no_affinity_.v_bit))
+__CPROVER_ensures(self->no_affinity_.size == num_system_pus)
 __CPROVER_assigns(self->no_affinity_)
 #ifdef U_NONE_BRANCH
-{
 //@LIFT none_branch
-}
 #else
 ;
 #endif
@@ -118,11 +117,9 @@ void harness(void)
   ad.affinity_masks_size = nondet_size();
   ad.affinity_domain_ = nondet_int();
 #ifdef U_NONE_BRANCH
-  bool none = nondet_bool();
-  init_none_branch(&ad, none, g_pu_bound);
-  if (none && g_k < ad.num_threads_ && g_k_punum == g_b) VX_REACH("victim_bit_set");
-  if (none && ad.num_threads_ == 0) VX_REACH("no_workers");
-  if (!none) VX_REACH("other_binding");
+  init_none_branch(&ad, g_pu_bound);
+  if (g_k < ad.num_threads_ && g_k_punum == g_b) VX_REACH("victim_bit_set");
+  if (ad.num_threads_ == 0) VX_REACH("no_workers");
 #endif
 #ifdef U_GET_PU_MASK
   struct mask r = get_pu_mask(&ad, &topo, nondet_size());
@@ -136,7 +133,7 @@ void harness(void)
   VX_ASSUME(ad.pu_nums_size == ad.num_threads_ && ad.num_threads_ <= hc && g_k_punum == g_k && g_b == g_k);
   VX_ASSUME(g_k < ad.num_threads_ && ad.affinity_domain_ >= DOM_pu && ad.affinity_domain_ <= DOM_machine);
   VX_ASSUME(ad.affinity_masks_size == 0 || ad.affinity_masks_size == ad.num_threads_);
-  init_none_branch(&ad, true, hc);
+  init_none_branch(&ad, hc);
   struct mask r = get_pu_mask(&ad, &topo, g_k);
   VX_ASSERT(r.kind == MK_EMPTY, "bind=none: every worker's affinity mask is empty (the worker is left unbound)");
   VX_REACH("worker_unbound");
